@@ -30,6 +30,8 @@ type outcome struct {
 	GoFile *goast.File
 	GoFset *gotoken.FileSet
 	Why    string // skip reason class
+	ErrOff int      // byte offset of XGo's first error (-1: none)
+	Sigs   []string // root-cause signatures to report (explain); Sig is the raw signature
 }
 
 var (
@@ -96,9 +98,9 @@ type xgoParse struct {
 	pan  any
 }
 
-// xgoParses runs the XGo parser the ways the tool chain can reach it for a .go file:
-// ParseFile with mode 0, ParseFile with ParseComments (what cl/tool use), and ParseFSDir over an
-// in-memory directory with ParseGoAsGoPlus (the only place that flag is honoured: without it
+// xgoParses runs the XGo parser the ways the tool chain can reach it for a .go file, always with the
+// mode flag that says so (ParseGoAsGoPlus, "parse Go files by gop/parser"): ParseFile with and without
+// ParseComments (what cl/tool add), and ParseFSDir over an in-memory directory (without the flag
 // ParseFSDir hands .go files to go/parser).
 func xgoParses(name string, src []byte, all bool) []xgoParse {
 	var out []xgoParse
@@ -114,14 +116,14 @@ func xgoParses(name string, src []byte, all bool) []xgoParse {
 		}()
 		out = append(out, r)
 	}
-	one("ParseFile/ParseComments", func() (*xast.File, error) {
-		return xparser.ParseFile(xtoken.NewFileSet(), name, src, xparser.ParseComments)
+	one("ParseFile/ParseGoAsGoPlus|ParseComments", func() (*xast.File, error) {
+		return xparser.ParseFile(xtoken.NewFileSet(), name, src, xparser.ParseGoAsGoPlus|xparser.ParseComments)
 	})
 	if !all {
 		return out
 	}
-	one("ParseFile/0", func() (*xast.File, error) {
-		return xparser.ParseFile(xtoken.NewFileSet(), name, src, 0)
+	one("ParseFile/ParseGoAsGoPlus", func() (*xast.File, error) {
+		return xparser.ParseFile(xtoken.NewFileSet(), name, src, xparser.ParseGoAsGoPlus)
 	})
 	one("ParseFSDir/ParseGoAsGoPlus", func() (*xast.File, error) {
 		fs := memfs.SingleFile("/m", "x.go", string(src))
@@ -149,7 +151,7 @@ func compareSrc(name string, src []byte, needTypes bool, allModes bool) outcome 
 	if gerr != nil {
 		return outcome{V: "skip", Why: "go/parser", Detail: "go/parser: " + gerr.Error()}
 	}
-	o := outcome{GoFile: gf, GoFset: fset}
+	o := outcome{GoFile: gf, GoFset: fset, ErrOff: -1}
 	if needTypes {
 		if terr := typeCheck(fset, gf); terr != nil {
 			o.V, o.Why, o.Detail = "skip", "go/types", "go/types: "+terr.Error()
@@ -167,6 +169,7 @@ func compareSrc(name string, src []byte, needTypes bool, allModes bool) outcome 
 			return o
 		case xp.err != nil:
 			off := firstErrOffset(xp.err)
+			o.ErrOff = off
 			o.V, o.Sig = "viol", "xgo-reject:"+construct(fset, gf, off)+"@"+tokenAt(src, off)
 			o.Detail = fmt.Sprintf("%s rejects a file go/parser and go/types accept: %v", xp.name, firstErr(xp.err))
 			return o
